@@ -29,7 +29,7 @@ ASSUMPTIONS = [
 ]
 TIME_LIMIT = {"quick": 1200, "thorough": 7200}
 
-FORMATS = ["xyz", "sdf"]
+FORMATS = ["xyz", "sdf", "pdb"]
 
 
 def correspond(ctx):
